@@ -38,6 +38,8 @@ type World struct {
 	impls     map[string][]types.Type
 	namedTypes []types.Type
 	Orphaned  []string
+	globalFacts    map[string][]string
+	WrittenGlobals map[string]bool
 }
 
 func isRepoPkg(path string) bool {
